@@ -344,6 +344,12 @@ fn fill_once(out: &mut [f32], fill_y: usize, adjacent_groups: [Option<SharedSubg
     };
 
     let (source_y, c, l, r) = if let Some(c) = c {
+        // The group below may be shorter than the padding; mirror at the bottom edge of the frame.
+        let source_y = if source_y < c.height() {
+            source_y
+        } else {
+            (2 * c.height() - 1).saturating_sub(source_y)
+        };
         (source_y, c, l, r)
     } else if let Some(y) = (height - 1).checked_sub(source_y) {
         let c = this;
